@@ -70,8 +70,8 @@ func buildZip(entries []rawEntry) []byte {
 		}
 		var h [30]byte
 		binary.LittleEndian.PutUint32(h[0:], 0x04034b50)
-		binary.LittleEndian.PutUint16(h[4:], 20)  // version needed
-		binary.LittleEndian.PutUint16(h[6:], 0)   // flags: no UTF-8 bit, no data descriptor
+		binary.LittleEndian.PutUint16(h[4:], 20) // version needed
+		binary.LittleEndian.PutUint16(h[6:], 0)  // flags: no UTF-8 bit, no data descriptor
 		binary.LittleEndian.PutUint16(h[8:], method)
 		binary.LittleEndian.PutUint16(h[10:], dosTime)
 		binary.LittleEndian.PutUint16(h[12:], dosDate)
